@@ -53,6 +53,19 @@ func attributionPart(r *mc.Run, cov map[string]any) {
 			r.OnViol(v)
 		}
 	}
+	// committees that carry members without voting power (positions 1 and 4 of 9; position 0 of 12 in thorough)
+	zsets := [][]int{{9, 1, 4}}
+	if !r.Quick() {
+		zsets = append(zsets, []int{12, 5}, []int{10, 8, 9})
+	}
+	for _, z := range zsets {
+		vs, cases := bftworld.AttributionViols(z[0], z[1:]...)
+		total += cases
+		for _, v := range vs {
+			r.OnViol(v)
+		}
+	}
+	cov["attribution_zero_power_committees"] = zsets
 	cov["attribution_cases"] = total
 	cov["attribution_committee_sizes"] = sizes
 	fmt.Printf("attribution part: committees %v, %d signer sets (every one or two positions), each followed by its padded-bitmap replay\n", sizes, total)
